@@ -123,6 +123,23 @@ def run():
             rid = f"s{len(reqs)}"
             reqs.append({"id": rid, "src": prog, "stdin": sin, "fuel": 400000, "deadline_ms": 5000})
             meta[rid] = ("stdin", prog, str(len(sin)), 0)
+    # derived structures: values built by a conversion from keys / elements of every kind, handed on to consumers that take them apart
+    keys = ["'a", "'a.bear", '"x".bear({y: 1})', "Str", "Int", "1", "nil", "[1]", "{}", "Obj", 'Str.bear.new("s")', "Int.bear.new(3)", "'_p", '"a b"', '""', "1.5", "true", "{|x| x}", "(1:2)", "_"]
+    builders = ["[[{k}, 1]].O", "[[{k}, 1]].M", "[[{k}, 1], [{k}, 2]].O", "%{{{k}: 1}}.O", "%{{{k}: 1}}", "{{a: {k}}}", "[{k}, {k}]", "[[{k}]]", "[[{k}, 1, 2]].O", "[{k}].O", "[{k}].M", "{{^{k}: 1}}",
+                "[[1, {k}]].M.O", "{{a: 1}}.bear({{b: {k}}})", "[{k}].try", "({k}:{k})", "{k}.try"]
+    consumers = ["{{|a: 0| a}}(**{d})", "{{|x, a: 0, y: 1| [x, a, y, \\_]}}(1, **{d})", "{{m: m{{|a: 0| a}}}}.m(**{d})", "<{{|a: 0| yield a}}>.new(**{d}).next", "{{**{d}}}", "%{{**{d}}}",
+                 "{{a: 5, **{d}}}.a", "{d}.keys", "{d}.items", "{d}.values", "{d}.S", "{d}.repr", "{d} == {d}", "{d}.bear({{}})", "{d}['a]", "{d}.a", "{d}.which('a)", "JSON.enc({d})",
+                 "{d}@{{|k, v| [k, v]}}", "{d}.A", "{d}.O", "{d}.M", "[*{d}]", "{{|x| \\0}}(*{d})", "{d}.len", "{d}$([]){{|acc, e| [*acc, e]}}", "{d}.keys(private?: true)", "{d}.try.keys.A",
+                 "\"#{{{d}}}\"", "{d}.bear({{}}).bear.keys", "%{{{d}: 1}}[{d}]", "{d}.patch(a: 1)", "{d}.del('a)"]
+    nb = len(keys) * len(builders)
+    ders = rng.sample(range(nb * len(consumers)), nb * len(consumers) if thorough else 6000)
+    for x in ders:
+        bi, ci = divmod(x, len(consumers))
+        ki, bj = divmod(bi, len(builders))
+        d = "(" + builders[bj].format(k=keys[ki]) + ")"
+        rid = f"d{len(reqs)}"
+        reqs.append({"id": rid, "src": consumers[ci].format(d=d), "fuel": 100000, "depth": 150, "deadline_ms": 4000})
+        meta[rid] = ("derived", builders[bj], consumers[ci], 0)
     # a seeded sample also through the real script path
     for rq in rng.sample(reqs, max(200, len(reqs) // (20 if thorough else 60))):
         rid = "R" + rq["id"]
@@ -161,6 +178,63 @@ def run():
         else:
             sig = f"C01:{m[0]}:{what}:{site.group(1) if site else '-'}"
         ck.reject(sig, f"{rq['src'][:200]!r} (stdin {len(rq.get('stdin', ''))} bytes): {end}", {"src": rq["src"], "stdin": rq.get("stdin", ""), "mode": rq.get("mode", "prog"), "observed": end})
+    # ---- interactive sessions: TLC enumerates the sessions PanRepl allows; each is typed into the real REPL
+    rr = run_tlc("MC_Repl", cfg="MC_Repl.cfg", defines={"MaxLines": "5" if thorough else "4"}, timeout_s=1500)
+    if rr.violation:
+        raise pvlib.Broken("PanRepl property violated in the model: " + rr.violation)
+    ck.add_tlc(rr, "MC_Repl")
+    sessions = payloads(rr, "CASE ")
+    cap = 60000 if thorough else 4000
+    if len(sessions) > cap:
+        sessions = rng.sample(sessions, cap)
+    # plus seeded sessions over a wider alphabet (mode words in every capitalisation, token representatives, corpus lines)
+    words = ["multi", "single", "Multi", "MULTI", "Single", "SINGLE", "mUlTi", " single", "multi ", "multi;", "single # c", "", "", "x := 1", "x", "'a.p", "{|x|", "}", "1 +", '"abc', "[1,", "]", "<>", "\t"]
+    rsess = []
+    for _ in range(20000 if thorough else 2000):
+        rsess.append([rng.choice(words) if rng.random() < 0.8 else " ".join(rng.choice(reps) for _ in range(rng.randint(1, 3))).replace("\n", " ") for _ in range(rng.randint(1, 8))])
+    PROMPT = {"single": ">>> ", "multi": "<< multi-line mode (read lines until empty line is found) >>\n"}
+    rreqs = [{"id": f"q{k}", "mode": "repl", "stdin": "".join(l + "\n" for l in c["typed"]), "fuel": 100000, "deadline_ms": 5000} for k, c in enumerate(sessions)]
+    rreqs += [{"id": f"Q{k}", "mode": "repl", "stdin": "".join(l + "\n" for l in ls), "fuel": 100000, "deadline_ms": 5000} for k, ls in enumerate(rsess)]
+    rreqs += [{"id": f"h{k}", "mode": "replchunks", "progs": [o["src"] for o in c["out"] if o["e"] == "eval"], "fuel": 100000, "deadline_ms": 5000} for k, c in enumerate(sessions)]
+    rout = run_cases(rreqs, label="C01 repl", shard_timeout_s=3000)
+    header = None
+    rdiv = 0
+    for rq in rreqs:
+        if rq["mode"] != "repl":
+            continue
+        o = rout[rq["id"]]
+        cls = classify(o["end"])
+        classes[cls] = classes.get(cls, 0) + 1
+        meta[rq["id"]] = ("repl", "", "", 0)
+        if cls not in ("syntax", "value", "panerr", "discarded"):
+            what = re.sub(r"0x[0-9a-f]+", "0x..", o["end"].split(" @ ")[0])[:80]
+            site = re.search(r"@ ([\w/\.]+:\d+)", o["end"])
+            ck.reject(f"C01:repl:{what}:{site.group(1) if site else '-'}", f"REPL session {rq['stdin']!r}: {o['end']}", {"src": rq["stdin"], "stdin": rq["stdin"], "mode": "repl", "observed": o["end"]})
+    for k, c in enumerate(sessions):
+        o, h = rout[f"q{k}"], rout[f"h{k}"]
+        if classify(o["end"]) != "value" or h["end"] != "ok":
+            continue
+        text = o["events"][0][3:]
+        if header is None:
+            header = text[:text.index(">>> ")]
+        evs = [e[3:] for e in h["events"]]
+        want, j = header, 0
+        for x in c["out"]:
+            if x["e"] == "prompt":
+                want += PROMPT[x["m"]]
+            else:
+                want += evs[j]
+                j += 1
+        if text != want:
+            rdiv += 1
+            if rdiv <= 5:
+                ck.divergence("REPL transcript differs from PanRepl", {"typed": c["typed"], "observed": text[len(header):][:400], "expected": want[len(header):][:400]})
+    ck.cov["repl"] = {"sessions_from_spec": len(sessions), "seeded_sessions": len(rsess), "transcripts_differing_from_PanRepl": rdiv}
+    reqs = reqs + [rq for rq in rreqs if rq["mode"] == "repl"]
+    for rq in rreqs:
+        if rq["mode"] == "repl":
+            rq["src"] = rq["stdin"]
+            out[rq["id"]] = rout[rq["id"]]
     fams = {}
     for rq in reqs:
         fams[meta[rq["id"]][0]] = fams.get(meta[rq["id"]][0], 0) + 1
@@ -174,7 +248,9 @@ def run():
     ck.cov["rule"] = (f"call space: {len(POOL)} boundary receivers x every property name reachable along their prototype chains (dumped from the current tree) x argument "
                       f"tuples ({len(argsets)}: none, one from a {len(SUB12) if not thorough else len(POOL)}-value pool, pairs from a sub-pool, keyword / * / ** forms); token space: all pairs of {len(reps)} token "
                       "representatives (from the real lexer over the corpus + malformed tokens) + seeded triples; byte-level mutations of corpus files; index/slice space "
-                      "on 15 receivers x 26 indices x 4 forms; stdin shapes through <>; a seeded sample again through runscript.RunSource; non-trivial = runs ending in a "
+                      "on 15 receivers x 26 indices x 4 forms; derived structures (20 key kinds x 17 builders x 33 consumers: conversions such as Arr#O / Arr#M over descendants of str, then ** / * expansion, "
+                      "iteration, printing, JSON); stdin shapes through <>; interactive sessions: sessions of <= 4 (thorough 5) lines over 12 line kinds that PanRepl allows (quick: 4000 seeded of 22621; thorough: 60000 seeded of all), typed into "
+                      "runscript.StartREPL and compared with the transcript PanRepl prescribes (chunks evaluated in one scope), + seeded sessions over mode words in every capitalisation; a seeded sample again through runscript.RunSource; non-trivial = runs ending in a "
                       "Pangaea error (a built-in was reached with arguments it has to reject)")
     ck.assumptions = ["programs cut off by the evaluation fuel / depth / deadline / heap watchdog are discarded (the property's proviso)",
                       "Go runtime resource-exhaustion panics (makeslice, Repeat overflow) are classified as discarded"]
